@@ -233,8 +233,9 @@ def step (cfg : Cfg) (w : World) (st : State) (r : Req) : World × State × Out 
     match st.ro with
     | none => (w, st, ⟨[], true⟩)
     | some ro =>
-      if !roSeekOk ro off then (w, st, ⟨[], true⟩) else
       if ro.isDir then (w, st, ⟨[], true⟩) else       -- "is a directory", before anything is announced
+      if off ≥ roSize w ro then (w, st, ⟨readFileResultHdr 0, false⟩) else   -- at or after the end: an empty answer, no seek at all
+      if !roSeekOk ro off then (w, st, ⟨[], true⟩) else
       match roRead w ro off limit with
       | none => (w, st, ⟨[], true⟩)
       | some data => (w, st, ⟨readFileResultHdr data.length ++ data, false⟩)
